@@ -1100,7 +1100,7 @@ def safe_worker(task):
         return ("error", "%r\n%s" % (e, traceback.format_exc()[-1500:]))
 
 
-def run_tasks(ctx, tasks, nproc=5, timeout=420, retry_timeout=150, max_culprits=2):
+def run_tasks(ctx, tasks, nproc=5, timeout=240, retry_timeout=100, max_culprits=2):
     """Runs the tasks in worker processes.  A worker that raises, is killed by a signal (the
     implementation segfaults) or hangs does not stop the check: the task is re-run alone to single out
     the culprit, which is then reported as a disagreement (the implementation did something the model
@@ -1148,13 +1148,13 @@ def run_tasks(ctx, tasks, nproc=5, timeout=420, retry_timeout=150, max_culprits=
         except FTimeout:
             kill(ex1)
             culprits += 1
-            ctx.disagree("the implementation hangs (no result after %d s) in this task" % retry_timeout, task_desc(t),
-                         {"clause": "hang"})
+            ctx.fail("the converter does not terminate (no result after %d s) in a history starting with these "
+                     "runs" % retry_timeout, task_desc(t), {"clause": "hang"})
         except Exception as e:
             kill(ex1)
             culprits += 1
-            ctx.disagree("a worker process died while running this task (%r): the implementation killed the "
-                         "interpreter outside the guarded calls" % (e,), task_desc(t), {"clause": "worker_died"})
+            ctx.fail("the converter kills the interpreter (%r) in a history starting with these runs" % (e,),
+                     task_desc(t), {"clause": "worker_died"})
     out = []
     for t, (tag, val) in results:
         if tag == "ok":
